@@ -68,7 +68,20 @@ mutant("est-cust-balance-close-half-dropped", P, "let customer_balances_match = 
 mutant("est-id-state-half-dropped", P, "let channel_ids_match = state_response_scalars[0] == expected_channel_id\n            && close_state_response_scalars[0] == expected_channel_id;",
        "let channel_ids_match = close_state_response_scalars[0] == expected_channel_id;", ["C01"])
 # --- hashed inputs removed on both sides (honest runs stay consistent)
-mutant("est-hash-drops-context", P, "            .with_bytes(&context.as_bytes())\n            .finish();\n\n        // Retrieve commitment scalars from the close state proof", "            .finish();\n\n        // Retrieve commitment scalars from the close state proof", ["C06", "C12"])
+# context dropped from the establish challenge on BOTH sides (two cooperating sites)
+def both_sides_context():
+    full = os.path.join(WT, P); s = open(full).read()
+    a = "            // Incorporate transcript context.\n            .with_bytes(&context.as_bytes())\n"
+    b = "            // Incorporate transcript context.\n            .with_bytes(context.as_bytes())\n"
+    if a not in s or b not in s:
+        print("SKIP est-hash-drops-context"); return
+    s = s.replace(a, "", 1).replace(b, "", 1)
+    open(full, "w").write(s)
+    d = sh("git", "-C", WT, "diff").stdout
+    open(os.path.join(OUT, "est-hash-drops-context.patch"), "w").write(d)
+    sh("git", "-C", WT, "checkout", "--", ".")
+    index.append({"name": "est-hash-drops-context", "file": P, "expect": ["C06", "C12"], "why": "context no longer hashed into the establish challenge, prover and verifier alike"})
+both_sides_context()
 SIG = "zkchannels-crypto/src/proofs/signature.rs"
 mutant("sigproof-drop-wellformed", SIG, "valid_signature && valid_commitment_proof && commitment_proof_matches_signature", "valid_commitment_proof && commitment_proof_matches_signature", [], why="reachable only with an identity blinded signature, which the decoder refuses: not observable through zkAbacus (C11, n/a)")
 mutant("sigproof-drop-pairing", SIG, "valid_signature && valid_commitment_proof && commitment_proof_matches_signature", "valid_signature && valid_commitment_proof", ["C02"])
